@@ -19,6 +19,12 @@ add("C19", "xenum", "exploration",
     "Trusted: the 40-line arithmetic reference in checks/c19; values in [2^32, 2^62) are covered only through the boundary alphabet.",
     "DESIGN.md 4 C19")
 
+add("C01", "xenum", "exploration",
+    "bounded exhaustive enumeration of honest issuance flows (type x key x challenge length x nonce x entropy x batch x origin x blind alphabets) on the real code with every message crossing the wire as bytes",
+    "Every tuple of the per-type alphabets is run client -> bytes -> fresh decoder -> issuer (-> attester for type 3) -> bytes -> client; the token must have the exact layout and verify under an independent verifier (crypto/rsa PSS; RFC 9497 evaluation recomposed from group primitives) and under the issuer's own Verify.",
+    "Keys, nonces, challenges and blinds are fixed alphabets of representatives (boundary scalars 1, 2, N-1, leading-zero, DRBG); entropy is a SHA-256 counter DRBG installed in crypto/rand.Reader.",
+    "DESIGN.md 4 C01")
+
 NOT_APPLICABLE = {}
 
 ALL = ["C%02d" % i for i in range(1, 21)]
